@@ -129,6 +129,17 @@ def run_property(mod, tier="quick", seed=0, replay=None):
             elif il != ml:
                 disagreements.append((i, p))
 
+    # cross-case oracle: properties that compare the implementation with itself on
+    # related cases (sliced vs uninterrupted, n vs 10n, with/without a failed form)
+    if hasattr(mod, "cross_oracle"):
+        for p in profiles:
+            for i, msg in mod.cross_oracle(cases, impl[p]):
+                fid = mod.known_class(cases[i], impl[p][i], model[i]) if hasattr(mod, "known_class") else None
+                if fid is not None and fid in known_ids:
+                    rep.known(fid, known_ids[fid]["what"])
+                    continue
+                oracle_fail.append((i, p, msg))
+
     def fails_oracle(c, il, ml):
         return bool(mod.oracle(c, il)) and not (hasattr(mod, "known_class") and mod.known_class(c, il, ml) in known_ids)
 
@@ -138,12 +149,13 @@ def run_property(mod, tier="quick", seed=0, replay=None):
         if key in seen_msgs and len(seen_msgs) > 0:
             continue
         seen_msgs.add(key)
-        small_case = shrink_case(mod, ctx, cases[i], fails_oracle)
+        small_case = shrink_case(mod, ctx, cases[i], fails_oracle) if mod.oracle(cases[i], impl[p][i]) else cases[i]
         il = ctx.impl([small_case], p)[0]
         ml = ctx.model([small_case])[0]
         rep.violation({"case": small_case, "original_case": cases[i], "profile": p,
                        "readable": mod.describe(small_case) if hasattr(mod, "describe") else None,
-                       "impl": il, "model": ml, "oracle": mod.oracle(small_case, il) or msg})
+                       "impl": il, "model": ml, "oracle": mod.oracle(small_case, il) or msg,
+                       "related_cases": (mod.related(cases, i) if hasattr(mod, "related") else None)})
         if len(rep.violations) >= 5:
             break
 
